@@ -331,6 +331,125 @@ class ProcSpec(Spec):
         return len(pushes) >= 2 and any(o[0] != 'push' for o in hist[pushes[0]:pushes[-1]])
 
 
+# ---------------------------------------------------------------------------------------------
+# process statistics collector -> compiler (the pid 0 sample that drops a history comes from the collector)
+# ---------------------------------------------------------------------------------------------
+import supvisors.statscollector as _sc
+
+
+class _Conn:
+    def __init__(self):
+        self.sent = []
+
+    def send(self, x):
+        self.sent.append(x)
+
+
+class _FakePs:
+    """psutil.Process stand-in: which pids exist is decided by the harness."""
+    alive = set()
+
+    def __init__(self, pid=None):
+        if pid is None:
+            pid = 1
+        if pid != 1 and pid not in _FakePs.alive:
+            raise _sc.psutil.NoSuchProcess(pid)
+        self.pid = pid
+
+
+class CollState:
+    pass
+
+
+class CollectorSpec(Spec):
+    """Real ProcessStatisticsCollector feeding a real ProcStatisticsCompiler; psutil answers are the alphabet."""
+
+    def __init__(self, period=5.0):
+        self.period = period
+        self.name = f'C20-collector-{period}'
+
+    def new(self):
+        st = CollState()
+        _FakePs.alive = set()
+        _sc.psutil.Process = _FakePs
+        st.conn = _Conn()
+        st.coll = _sc.ProcessStatisticsCollector(st.conn, self.period, True, 1)
+        st.comp = ProcStatisticsCompiler(_Opt((5.0,), 3), _Log())
+        st.pid = 0          # pid of g:p as Supervisor knows it (0 = stopped)
+        st.next_pid = 100
+        st.now = 100.0
+        st.answer = 'ok'
+        st.work = 1.0
+        return st
+
+    def ops(self, cfg=None):
+        return [('start',), ('stop',), ('dt', 5.0), ('collect', 'ok'), ('collect', 'oserror'), ('collect', 'dead')]
+
+    def enabled(self, st, op):
+        if op == ('start',):
+            return st.pid == 0
+        if op == ('stop',):
+            return st.pid != 0
+        return True
+
+    def apply(self, st, op):
+        _w._FALLBACK[0] = st.now
+        _sc.psutil.Process = _FakePs
+        _FakePs.alive = {st.pid} if st.pid else set()
+        k = op[0]
+        if k == 'dt':
+            st.now += op[1]
+            return []
+        if k == 'start':
+            st.next_pid += 1
+            st.pid = st.next_pid
+            _FakePs.alive = {st.pid}
+            st.coll.update_process_list('g:p', st.pid)      # what the listener does on a RUNNING event
+        elif k == 'stop':
+            st.pid = 0
+            _FakePs.alive = set()
+            st.coll.update_process_list('g:p', 0)           # what the listener does on a stopped-like event
+        else:
+            answer = op[1]
+            st.work += 0.5
+
+            def stats(proc, get_children=True, _a=answer, _st=st):
+                if proc.pid == 1:
+                    return (1.0, 1.0)
+                if _a == 'dead' or proc.pid not in _FakePs.alive:
+                    return None
+                if _a == 'oserror':
+                    return ()
+                return (_st.work, 2.5)
+            _sc.instant_process_statistics = stats
+            st.coll.collect_processes_statistics()
+        errs = []
+        for msg in st.conn.sent:
+            if msg.get('namespec') != 'g:p':
+                continue
+            sample = dict(msg)
+            sample.setdefault('nb_cores', 2)
+            st.comp.push_statistics('A', sample)
+        st.conn.sent = []
+        holder = st.comp.holder_map.get('g:p')
+        kept = holder is not None and 'A' in holder.instance_map
+        if st.pid == 0 and kept and k == 'stop':
+            errs.append({'clause': 'stopped-process-history-kept', 'signature': 'C20:collector:stopped-kept',
+                         'entries': len(st.coll.processes)})
+        return errs
+
+    def key(self, st):
+        ent = [e for e in st.coll.processes if e['namespec'] == 'g:p']
+        holder = st.comp.holder_map.get('g:p')
+        kept = holder is not None and 'A' in holder.instance_map
+        return (st.pid != 0, len(ent), ent[0]['process'].pid == st.pid if ent else None,
+                cap(st.now - ent[0]['last'], 11) if ent else None, kept,
+                cap(st.now - st.coll.supervisor_process['last'], 11))
+
+    def nontrivial(self, hist):
+        return any(o[0] == 'collect' for o in hist) and any(o[0] == 'stop' for o in hist)
+
+
 def main():
     t = tier()
     out = Outcome('C20', 'exploration')
@@ -343,6 +462,7 @@ def main():
     if t == 'thorough':
         plan.append(HostSpec((5.0,), 10))
         plan.append(ProcSpec((5.0,), 10))
+    plan.append(CollectorSpec(5.0))
     cap_s = 110 if t == 'quick' else 1500
     results = run_specs(plan, lambda s: depth, lambda s: {'max_seconds': cap_s})
     cov = out.coverage
@@ -367,11 +487,13 @@ def main():
                 st = rebuild(spec, hist[:-1])
                 errs = checked_apply(spec, st, hist[-1])
                 assert v['signature'] in [e['signature'] for e in errs], 'violation did not reproduce'
-            out.report(v, {'driver': spec.name, 'config': {'periods': spec.periods, 'histo': spec.histo,
-                                                            'kind': 'host' if isinstance(spec, HostSpec) else 'proc'},
+            kind = 'host' if isinstance(spec, HostSpec) else 'collector' if isinstance(spec, CollectorSpec) else 'proc'
+            out.report(v, {'driver': spec.name, 'config': {'periods': getattr(spec, 'periods', None),
+                                                            'histo': getattr(spec, 'histo', None), 'kind': kind},
                            'events': [list(o) for o in hist]})
     cov['traces_validated_against_impl'] = cov['states']
-    cov['rule'] = ('product BFS of the real Host/ProcStatisticsCompiler and a reference model of the period gate and of '
+    cov['rule'] = ('product BFS of the real ProcessStatisticsCollector (psutil answers: sample / OSError / dead process) feeding '
+                   'the real compiler (a stopped process leaves no history); product BFS of the real Host/ProcStatisticsCompiler and a reference model of the period gate and of '
                    'the integrated values; alphabet: time steps (2.5 s = below the period, 5 s = the period; longer gaps by repetition), interface/disk/partition appearing and '
                    'vanishing, counters increasing / wrapping, cpu work / idle jiffies, pid change / pid 0, pushes for a '
                    'known and a never-seen instance; states merged on (history lengths per entity, key sets, capped time '
@@ -384,7 +506,8 @@ def main():
 
 def replay(payload):
     cfg = payload['config']
-    spec = (HostSpec if cfg['kind'] == 'host' else ProcSpec)(cfg['periods'], cfg['histo'])
+    spec = CollectorSpec(5.0) if cfg['kind'] == 'collector' else \
+        (HostSpec if cfg['kind'] == 'host' else ProcSpec)(cfg['periods'], cfg['histo'])
     hist = [tuple(o) for o in payload['events']]
     st = rebuild(spec, hist[:-1])
     errs = checked_apply(spec, st, hist[-1])
